@@ -64,6 +64,8 @@ struct Gen<'a> {
     rng: &'a mut Rng,
     prop: Prop,
     nsingles: u32,
+    /// cell index of every singleton character (to spell query strings with constructor characters)
+    single_cells: Vec<u32>,
     ncells: u32,
     pool: Vec<u32>,   // pool length per client
     mgr: Vec<u8>,     // manager per client
@@ -73,6 +75,10 @@ struct Gen<'a> {
     big_loops: bool,
     mid_loops: bool,
     force_many: bool,
+    idiom_kinds: u64,
+    burst: u32,
+    burst_client: usize,
+    burst_done: bool,
     max_steps: usize,
 }
 
@@ -121,6 +127,7 @@ fn base_weight(op: OpKind) -> u32 {
         Reissue => 4,
         EqCheck => 2,
         ComplTwice => 2,
+        Ballast => 1,
         // faults: scaled by the per-run fault level
         BadChar | BadRange | StrBad | LoopOverflow | Reentrant => 1,
         Evict => 3,
@@ -354,6 +361,17 @@ impl<'a> Gen<'a> {
                 let t = if self.rng.chance(1, 4) { self.qstr() } else { self.cstr() };
                 Step::new(cl, op).a(h, self.rng.u32(), 0).s(s).t(t)
             }
+            Ballast => {
+                // unrelated terms that only push the ids up: usually a few hundred, now and then enough
+                // to cross 2^16
+                let n = match self.rng.below(40) {
+                    0..=3 => 60_000 + self.rng.below(8_000) as u32,
+                    4 => 20_000 + self.rng.below(20_000) as u32,
+                    5..=10 => 1_000 + self.rng.below(4_000) as u32,
+                    _ => 20 + self.rng.below(400) as u32,
+                };
+                Step::new(cl, op).a(n, self.rng.below(0x20000) as u32, 0)
+            }
             BadChar => Step::new(cl, op).a(self.rng.below(0x1000) as u32, 0, 0),
             BadRange => {
                 let a = self.rng.below(self.ncells as u64) as u32;
@@ -384,7 +402,7 @@ impl<'a> Gen<'a> {
     fn idiom(&mut self, c: usize) {
         use OpKind::*;
         let cl = c as u8;
-        let pick = if self.force_many { 10 } else { self.rng.below(16) };
+        let pick = if self.force_many { 10 } else { self.rng.below(self.idiom_kinds) };
         match pick {
             0 => {
                 // intersection of two disjoint atoms, then a loop over the (semantically) empty body
@@ -604,7 +622,38 @@ impl<'a> Gen<'a> {
                 let k = 2 + self.rng.below(2) as u32;
                 self.push(Step::new(cl, Str).s(w.clone()));
                 let base = self.last(c);
-                let (x, y) = match self.rng.below(5) {
+                let (x, y) = match self.rng.below(6) {
+                    5 => {
+                        // two different terms with the same *printed* form: (ab)^2 and a.b^2, reached
+                        // behind different first characters of one union
+                        let a = self.single_code();
+                        let b = a + 1;
+                        self.push(Step::new(cl, Str).s(vec![a, b]));
+                        let ab = self.last(c);
+                        self.push(Step::new(cl, Exp).a(ab, k, 0));
+                        let x = self.last(c);
+                        let mut abb = vec![a];
+                        for _ in 0..k {
+                            abb.push(b);
+                        }
+                        self.push(Step::new(cl, Str).s(abb));
+                        let y = self.last(c);
+                        let (p1, p2) = (a + 2, a + 3);
+                        self.push(Step::new(cl, Char).a(p1, 0, 0));
+                        let h1 = self.last(c);
+                        self.push(Step::new(cl, Char).a(p2, 0, 0));
+                        let h2 = self.last(c);
+                        self.push(Step::new(cl, Concat).a(h1, x, 0));
+                        let l = self.last(c);
+                        self.push(Step::new(cl, Concat).a(h2, y, 0));
+                        let r = self.last(c);
+                        self.push(Step::new(cl, Union).a(l, r, 0));
+                        let u = self.last(c);
+                        let op = [Compile, Closure, TryCompile, IsEmpty][self.rng.below(4) as usize];
+                        self.push(Step::new(cl, op).a(u, 2, 0));
+                        self.push(Step::new(cl, Compile).a(u, 0, 0));
+                        (x, y)
+                    }
                     0 => {
                         // str(w)^k  vs  str(w^k)
                         self.push(Step::new(cl, Exp).a(base, k, 0));
@@ -656,6 +705,61 @@ impl<'a> Gen<'a> {
                 };
                 self.push(Step::new(cl, EqCheck).a(x, y, 0));
                 self.push(Step::new(cl, IncludedIn).a(x, y, 0));
+                // combined directly: intersection, union, difference of the two spellings
+                let op = [Inter, Inter, Union, Diff][self.rng.below(4) as usize];
+                self.push(Step::new(cl, op).a(x, y, 0));
+                let xy = self.last(c);
+                let r0 = self.rng.u32();
+                self.push(Step::new(cl, IsEmpty).a(xy, r0, 0));
+                let q0 = self.qstr();
+                self.push(Step::new(cl, StrInRe).a(xy, r0, 0).s(q0));
+                if self.mgr[c] == 0 {
+                    // ... and as a pattern for replace, with some other alternative next to it
+                    let other = self.h(c);
+                    self.push(Step::new(cl, Union).a(xy, other, 0));
+                    let pat = self.last(c);
+                    // a subject that contains w^k (spelled with the constructor characters)
+                    let mut subj: Vec<u32> = Vec::new();
+                    for _ in 0..self.rng.below(3) {
+                        subj.push(self.point_code());
+                    }
+                    if !self.single_cells.is_empty() {
+                        for _ in 0..k {
+                            for &ch in &w {
+                                subj.push(self.single_cells[ch as usize % self.single_cells.len()] * 3);
+                            }
+                        }
+                    }
+                    for _ in 0..self.rng.below(3) {
+                        subj.push(self.point_code());
+                    }
+                    let t = self.cstr();
+                    let rop = if self.rng.chance(1, 2) { Replace } else { ReplaceAll };
+                    self.push(Step::new(cl, rop).a(pat, r0, 0).s(subj.clone()).t(t.clone()));
+                    self.push(Step::new(cl, rop).a(xy, r0, 0).s(subj.clone()).t(t.clone()));
+                    // the two spellings meet only inside a derivative: (p.x) & (p.y + other)
+                    let pc = self.single_code();
+                    self.push(Step::new(cl, Char).a(pc, 0, 0));
+                    let ph = self.last(c);
+                    self.push(Step::new(cl, Concat).a(ph, x, 0));
+                    let px = self.last(c);
+                    self.push(Step::new(cl, Concat).a(ph, y, 0));
+                    let py = self.last(c);
+                    self.push(Step::new(cl, Union).a(py, other, 0));
+                    let pu = self.last(c);
+                    self.push(Step::new(cl, Inter).a(px, pu, 0));
+                    let deep = self.last(c);
+                    let mut subj2: Vec<u32> = Vec::new();
+                    for _ in 0..self.rng.below(3) {
+                        subj2.push(self.point_code());
+                    }
+                    if !self.single_cells.is_empty() {
+                        subj2.push(self.single_cells[pc as usize % self.single_cells.len()] * 3);
+                    }
+                    subj2.extend_from_slice(&subj);
+                    self.push(Step::new(cl, rop).a(deep, r0, 0).s(subj2.clone()).t(t));
+                    self.push(Step::new(cl, StrInRe).a(deep, r0, 0).s(subj2));
+                }
                 self.push(Step::new(cl, Compl).a(y, 0, 0));
                 let ny = self.last(c);
                 self.push(Step::new(cl, IncludedIn).a(x, ny, 0));
@@ -711,6 +815,396 @@ impl<'a> Gen<'a> {
                 let salt = self.rng.u32();
                 self.push(Step::new(cl, op).a(which, salt, 0).s(s.clone()).t(t));
                 self.push(Step::new(cl, StrInRe).a(which, salt, 0).s(s));
+            }
+            21 | 22 => {
+                // alternatives that share a first character, under complement and De Morgan shapes:
+                // the union that the inclusion test has to get right appears only in a derivative
+                let a = self.single_code();
+                let cc = a + 2;
+                let lo = self.rng.below(self.ncells as u64) as u32;
+                self.push(Step::new(cl, Char).a(a, 0, 0));
+                let ha = self.last(c);
+                self.push(Step::new(cl, Char).a(cc, 0, 0));
+                let hc = self.last(c);
+                self.push(Step::new(cl, Union).a(ha, hc, 0));
+                let head = self.last(c);
+                let hi0 = lo + 1 + self.rng.below(3) as u32;
+                self.push(Step::new(cl, Range).a(lo, hi0, 0));
+                let r = self.last(c);
+                self.push(Step::new(cl, Concat).a(head, r, 0));
+                let big_a = self.last(c); // (a+c).R
+                let w1 = vec![a, self.single_code()];
+                let w2 = vec![a, self.single_code()];
+                self.push(Step::new(cl, Str).s(w1.clone()));
+                let s1 = self.last(c);
+                self.push(Step::new(cl, Str).s(w2.clone()));
+                let s2 = self.last(c);
+                self.push(Step::new(cl, Union).a(s1, s2, 0));
+                let u = self.last(c); // "ax" + "ay"
+                self.push(Step::new(cl, Compl).a(big_a, 0, 0));
+                let na = self.last(c);
+                self.push(Step::new(cl, Compl).a(u, 0, 0));
+                let nu = self.last(c);
+                let mut ts: Vec<u32> = Vec::new();
+                self.push(Step::new(cl, Union).a(na, nu, 0));
+                ts.push(self.last(c));
+                self.push(Step::new(cl, Inter).a(na, nu, 0));
+                ts.push(self.last(c));
+                self.push(Step::new(cl, Inter).a(big_a, nu, 0));
+                ts.push(self.last(c));
+                self.push(Step::new(cl, Diff).a(u, big_a, 0));
+                ts.push(self.last(c));
+                let qa = if self.single_cells.is_empty() { 0 } else { self.single_cells[a as usize % self.single_cells.len()] * 3 };
+                for t in ts {
+                    // derive by the shared first character, then ask about the continuations
+                    self.push(Step::new(cl, CharDeriv).a(t, qa, 0));
+                    let d = self.last(c);
+                    let salt = self.rng.u32();
+                    for _ in 0..2 {
+                        let w = vec![self.point_code()];
+                        self.push(Step::new(cl, StrInRe).a(d, salt, 0).s(w));
+                    }
+                    let mut w = vec![qa];
+                    w.push(self.point_code());
+                    self.push(Step::new(cl, StrInRe).a(t, salt, 0).s(w.clone()));
+                    self.push(Step::new(cl, StrDeriv).a(t, 0, 0).s(w));
+                    if self.rng.chance(1, 2) {
+                        let op = [ClassInfo, SetDeriv, IsEmpty, Compile][self.rng.below(4) as usize];
+                        self.push(Step::new(cl, op).a(t, qa, qa + 2));
+                    }
+                }
+            }
+            23 | 24 => {
+                // star over a union of short words, followed by a word: scans of a search leave the
+                // initial state and come back to it; subjects over the same letters
+                let x = self.single_code();
+                let letters = [x, x + 1, x + 2];
+                let mut words: Vec<u32> = Vec::new();
+                for _ in 0..(2 + self.rng.below(2)) {
+                    let len = 1 + self.rng.below(2) as usize + if self.rng.chance(1, 3) { 1 } else { 0 };
+                    let w: Vec<u32> = (0..len).map(|_| letters[self.rng.below(3) as usize]).collect();
+                    self.push(Step::new(cl, Str).s(w));
+                    words.push(self.last(c));
+                }
+                self.push(Step::new(cl, UnionList).l(words));
+                let u = self.last(c);
+                let op = if self.rng.chance(3, 4) { Star } else { Plus };
+                self.push(Step::new(cl, op).a(u, 0, 0));
+                let st = self.last(c);
+                let tail: Vec<u32> = (0..1 + self.rng.below(2)).map(|_| letters[self.rng.below(3) as usize]).collect();
+                self.push(Step::new(cl, Str).s(tail));
+                let th = self.last(c);
+                self.push(Step::new(cl, Concat).a(st, th, 0));
+                let pat = self.last(c);
+                let ql: Vec<u32> = letters
+                    .iter()
+                    .map(|&l| if self.single_cells.is_empty() { 0 } else { self.single_cells[l as usize % self.single_cells.len()] * 3 })
+                    .collect();
+                for _ in 0..4 {
+                    let len = 2 + self.rng.below(7);
+                    let mut subj: Vec<u32> = (0..len).map(|_| ql[self.rng.below(3) as usize]).collect();
+                    if self.rng.chance(1, 3) {
+                        subj.push(self.point_code());
+                    }
+                    let salt = self.rng.u32();
+                    if self.mgr[c] == 0 {
+                        let t = self.cstr();
+                        self.push(Step::new(cl, Replace).a(pat, salt, 0).s(subj.clone()).t(t.clone()));
+                        self.push(Step::new(cl, ReplaceAll).a(pat, salt, 0).s(subj.clone()).t(t));
+                    }
+                    self.push(Step::new(cl, StrInRe).a(pat, salt, 0).s(subj));
+                }
+            }
+            25 | 26 if self.rng.chance(1, 3) => {
+                // powers and counted loops with "interesting" counts (around powers of two, 100, 300)
+                // over a character class and a wider one, or over a nullable absorbing body
+                // (S* c?), compared and combined; bounds of try_compile in the same ranges
+                let ks = [1u32, 2, 3, 7, 8, 15, 16, 31, 32, 63, 64, 65, 99, 100, 101, 127, 128, 129, 150, 200, 255, 256, 257, 258, 300];
+                // the large counts are expensive for everybody (300 states, 300-character strings):
+                // one time in four
+                let top = if self.rng.chance(1, 4) { ks.len() } else { 12 };
+                let k1 = ks[self.rng.below(top as u64) as usize];
+                let k2 = match self.rng.below(4) {
+                    0 => k1,
+                    1 => k1 + 1,
+                    2 => k1.saturating_sub(1).max(1),
+                    _ => ks[self.rng.below(top as u64) as usize],
+                };
+                let a = self.rng.below(self.ncells as u64) as u32;
+                self.push(Step::new(cl, Range).a(a, a, 0));
+                let narrow = self.last(c);
+                self.push(Step::new(cl, Range).a(a.saturating_sub(1), a + 1, 0));
+                let wide = self.last(c);
+                let body2 = match self.rng.below(4) {
+                    0 => {
+                        self.push(Step::new(cl, AllChar));
+                        self.last(c)
+                    }
+                    1 => {
+                        // nullable absorbing body: S* c?
+                        self.push(Step::new(cl, Star).a(wide, 0, 0));
+                        let s0 = self.last(c);
+                        self.push(Step::new(cl, Opt).a(narrow, 0, 0));
+                        let o = self.last(c);
+                        self.push(Step::new(cl, Concat).a(s0, o, 0));
+                        self.last(c)
+                    }
+                    2 => {
+                        self.push(Step::new(cl, All));
+                        let f = self.last(c);
+                        self.push(Step::new(cl, Opt).a(narrow, 0, 0));
+                        let o = self.last(c);
+                        self.push(Step::new(cl, Concat).a(f, o, 0));
+                        self.last(c)
+                    }
+                    _ => wide,
+                };
+                let mk = |g: &mut Self, body: u32, k: u32| -> u32 {
+                    match g.rng.below(4) {
+                        0 => g.push(Step::new(cl, Exp).a(body, k, 0)),
+                        1 => {
+                            let hi = k + g.rng.below(60) as u32;
+                            g.push(Step::new(cl, Loop).a(body, k, hi))
+                        }
+                        2 => g.push(Step::new(cl, LoopInf).a(body, k, 0)),
+                        _ => g.push(Step::new(cl, Loop).a(body, k.saturating_sub(2), k)),
+                    }
+                    g.last(c)
+                };
+                let x = mk(self, narrow, k1);
+                let y = mk(self, body2, k2);
+                self.push(Step::new(cl, IncludedIn).a(x, y, 0));
+                self.push(Step::new(cl, IncludedIn).a(y, x, 0));
+                self.push(Step::new(cl, Union).a(x, y, 0));
+                let u = self.last(c);
+                let salt = self.rng.u32();
+                if k1.max(k2) <= 66 || self.rng.chance(1, 3) {
+                    self.push(Step::new(cl, StrInRe).a(u, salt, 0).s(vec![a * 3; k1.min(300) as usize]));
+                    self.push(Step::new(cl, StrInRe).a(u, salt, 0).s(vec![a * 3; k2.min(300) as usize]));
+                }
+                for t in [x, y] {
+                    // whole-graph work on 300-state terms is expensive: mostly bounded compilations
+                    let op = if k1.max(k2) <= 66 {
+                        [Closure, TryCompile, Compile, IsEmpty][self.rng.below(4) as usize]
+                    } else {
+                        [TryCompile, TryCompile, TryCompile, Closure][self.rng.below(4) as usize]
+                    };
+                    // try_compile modes 0/1 use small bounds derived from the third operand
+                    let b = [1u32, 2, 3, 50, 99, 100, 150, 255][self.rng.below(8) as usize];
+                    let md = self.rng.below(2) as u32;
+                    self.push(Step::new(cl, op).a(t, md, b));
+                }
+            }
+            19 | 20 => {
+                // absorption: s + (s & y), s & (s + y) with y syntactically wider than s, their
+                // complement duals, and the same with an unrelated third member whose id may lie on
+                // either side (it is often a term another client created earlier)
+                let s0 = if self.rng.chance(1, 2) {
+                    let a = self.single_code();
+                    self.push(Step::new(cl, Char).a(a, 0, 0));
+                    self.last(c)
+                } else {
+                    self.h(c)
+                };
+                let y = match self.rng.below(4) {
+                    0 => {
+                        self.push(Step::new(cl, AllChar));
+                        self.last(c)
+                    }
+                    1 => {
+                        self.push(Step::new(cl, All));
+                        self.last(c)
+                    }
+                    2 => {
+                        let k = self.ncells;
+                        let hi = k - 1 - self.rng.below(2) as u32;
+                        self.push(Step::new(cl, Range).a(0, hi, 0));
+                        self.last(c)
+                    }
+                    _ => {
+                        let o = self.h(c);
+                        self.push(Step::new(cl, Union).a(s0, o, 0));
+                        self.last(c)
+                    }
+                };
+                let third = if self.rng.chance(1, 2) {
+                    let a = self.single_code();
+                    self.push(Step::new(cl, Char).a(a, 0, 0));
+                    self.last(c)
+                } else {
+                    self.h(c)
+                };
+                self.push(Step::new(cl, Inter).a(s0, y, 0));
+                let i = self.last(c);
+                self.push(Step::new(cl, Union).a(s0, y, 0));
+                let u = self.last(c);
+                let mut results: Vec<u32> = Vec::new();
+                self.push(Step::new(cl, Union).a(s0, i, 0));
+                results.push(self.last(c));
+                self.push(Step::new(cl, Inter).a(s0, u, 0));
+                results.push(self.last(c));
+                self.push(Step::new(cl, UnionList).l(vec![s0, i, third]));
+                results.push(self.last(c));
+                self.push(Step::new(cl, UnionList).l(vec![third, i, s0]));
+                results.push(self.last(c));
+                self.push(Step::new(cl, InterList).l(vec![s0, u, third]));
+                results.push(self.last(c));
+                // complement duals
+                self.push(Step::new(cl, Compl).a(s0, 0, 0));
+                let ns = self.last(c);
+                self.push(Step::new(cl, Compl).a(i, 0, 0));
+                let ni = self.last(c);
+                self.push(Step::new(cl, Union).a(ns, ni, 0));
+                results.push(self.last(c));
+                self.push(Step::new(cl, Inter).a(ns, ni, 0));
+                results.push(self.last(c));
+                for r in results {
+                    let salt = self.rng.u32();
+                    let q = self.qstr();
+                    self.push(Step::new(cl, StrInRe).a(r, salt, 0).s(q));
+                    if self.rng.chance(1, 3) {
+                        let op = [IsEmpty, GetString, Compile, StartChar][self.rng.below(4) as usize];
+                        self.push(Step::new(cl, op).a(r, salt % 32, 0));
+                    }
+                }
+            }
+            16 | 17 | 18 => {
+                // Sigma*-separated patterns over two letters: [B0] (S* B_i)+ [S*] and relatives of it
+                // (a block dropped, a block replaced, only the ends, S* last-block). Overlapping
+                // blocks over {x,y} are where the syntactic inclusion test (rigid prefix / suffix /
+                // inner matches) has its index arithmetic.
+                if self.single_cells.len() < 2 {
+                    return;
+                }
+                let x = self.single_code();
+                let y = x + 1;
+                let qx = self.single_cells[x as usize % self.single_cells.len()] * 3;
+                let qy = self.single_cells[y as usize % self.single_cells.len()] * 3;
+                let nblocks = 2 + self.rng.below(3) as usize;
+                let mut blocks: Vec<Vec<bool>> = Vec::new(); // false = x, true = y
+                for _ in 0..nblocks {
+                    let len = 1 + self.rng.below(3) as usize;
+                    blocks.push((0..len).map(|_| self.rng.chance(1, 2)).collect());
+                }
+                // make overlaps likely: sometimes a block is a suffix / prefix of another
+                if self.rng.chance(1, 2) {
+                    let i = self.rng.below(nblocks as u64) as usize;
+                    let j = self.rng.below(nblocks as u64) as usize;
+                    let src = blocks[j].clone();
+                    let cut = self.rng.below(src.len() as u64) as usize;
+                    blocks[i] = if self.rng.chance(1, 2) { src[cut..].to_vec() } else { src[..=cut].to_vec() };
+                }
+                let code = |b: bool| if b { y } else { x };
+                self.push(Step::new(cl, All));
+                let all = self.last(c);
+                let mut bh: Vec<u32> = Vec::new();
+                for b in &blocks {
+                    let sv: Vec<u32> = b.iter().map(|&z| code(z)).collect();
+                    if self.rng.chance(1, 3) && b.len() == 1 {
+                        self.push(Step::new(cl, Char).a(sv[0], 0, 0));
+                    } else {
+                        self.push(Step::new(cl, Str).s(sv));
+                    }
+                    bh.push(self.last(c));
+                }
+                let lead = self.rng.chance(1, 2);
+                let trail_all = self.rng.chance(1, 2);
+                let build = |lead: bool, idx: &[usize], trail_all: bool| -> Vec<u32> {
+                    let mut seq = Vec::new();
+                    for (n, &i) in idx.iter().enumerate() {
+                        if n > 0 || !lead {
+                            seq.push(all);
+                        }
+                        seq.push(bh[i]);
+                    }
+                    if trail_all {
+                        seq.push(all);
+                    }
+                    seq
+                };
+                let idx: Vec<usize> = (0..nblocks).collect();
+                self.push(Step::new(cl, ConcatList).l(build(lead, &idx, trail_all)));
+                let p = self.last(c);
+                let mut rel: Vec<u32> = Vec::new();
+                for _ in 0..2 {
+                    match self.rng.below(6) {
+                        0 => {
+                            // a block dropped
+                            let d = self.rng.below(nblocks as u64) as usize;
+                            let idx2: Vec<usize> = (0..nblocks).filter(|&i| i != d).collect();
+                            if idx2.is_empty() {
+                                continue;
+                            }
+                            self.push(Step::new(cl, ConcatList).l(build(lead, &idx2, trail_all)));
+                        }
+                        1 => {
+                            // only the first blocks, glued (no S* in between)
+                            let k = 1 + self.rng.below(nblocks as u64) as usize;
+                            self.push(Step::new(cl, ConcatList).l(bh[..k].to_vec()));
+                        }
+                        2 => {
+                            // S* last-block
+                            self.push(Step::new(cl, ConcatList).l(vec![all, bh[nblocks - 1]]));
+                        }
+                        3 => {
+                            // first block S*
+                            self.push(Step::new(cl, ConcatList).l(vec![bh[0], all]));
+                        }
+                        4 => {
+                            // anchoring flipped
+                            self.push(Step::new(cl, ConcatList).l(build(!lead, &idx, !trail_all)));
+                        }
+                        _ => {
+                            // blocks in another order
+                            let mut idx2 = idx.clone();
+                            idx2.rotate_left(1);
+                            self.push(Step::new(cl, ConcatList).l(build(lead, &idx2, trail_all)));
+                        }
+                    }
+                    rel.push(self.last(c));
+                }
+                // a few words over {x,y}: the blocks glued with and without overlap, and random ones
+                let mut words: Vec<Vec<u32>> = Vec::new();
+                let mut glued: Vec<u32> = Vec::new();
+                for b in &blocks {
+                    glued.extend(b.iter().map(|&z| if z { qy } else { qx }));
+                }
+                words.push(glued.clone());
+                if glued.len() > 2 {
+                    let mut g2 = glued.clone();
+                    g2.remove(self.rng.below(g2.len() as u64) as usize);
+                    words.push(g2);
+                }
+                words.push(blocks[0].iter().map(|&z| if z { qy } else { qx }).collect());
+                for _ in 0..2 {
+                    let len = 1 + self.rng.below(6);
+                    words.push((0..len).map(|_| if self.rng.chance(1, 2) { qx } else { qy }).collect());
+                }
+                for &q in &rel {
+                    self.push(Step::new(cl, IncludedIn).a(q, p, 0));
+                    self.push(Step::new(cl, IncludedIn).a(p, q, 0));
+                    let op = [Union, Union, Inter, Diff][self.rng.below(4) as usize];
+                    self.push(Step::new(cl, op).a(q, p, 0));
+                    let u = self.last(c);
+                    let salt = self.rng.u32();
+                    for w in &words {
+                        self.push(Step::new(cl, StrInRe).a(u, salt, 0).s(w.clone()));
+                    }
+                    let op2 = [IsEmpty, GetString, Compile, Closure, StartChar, ClassInfo][self.rng.below(6) as usize];
+                    let r = self.rng.u32();
+                    self.push(Step::new(cl, op2).a(u, r % 64, 0));
+                }
+                let salt = self.rng.u32();
+                for w in &words {
+                    self.push(Step::new(cl, StrInRe).a(p, salt, 0).s(w.clone()));
+                }
+                // derivatives of the pattern itself build unions of its tails internally
+                let w0 = words[self.rng.below(words.len() as u64) as usize].clone();
+                self.push(Step::new(cl, StrDeriv).a(p, 0, 0).s(w0));
+                let d = self.last(c);
+                let op3 = [IsEmpty, GetString, Compile, Closure][self.rng.below(4) as usize];
+                self.push(Step::new(cl, op3).a(d, 0, 0));
+                self.push(Step::new(cl, op3).a(p, 0, 0));
             }
             12 | 13 => {
                 // the same membership question before and after another kind of call on the same term
@@ -794,6 +1288,35 @@ impl<'a> Gen<'a> {
                         self.push(Step::new(cl, ClassDeriv).a(u, k2, 0));
                         self.push(Step::new(cl, StartClass).a(u, k3, 0));
                         self.push(Step::new(cl, ClassInfo).a(u, 0, 0));
+                        // the union narrowed to the strings that start in the lower half of the
+                        // alphabet, and its complement: start_class answers differ between classes
+                        let half = self.ncells / 2;
+                        self.push(Step::new(cl, Range).a(0, half, 0));
+                        let lowr = self.last(c);
+                        self.push(Step::new(cl, All));
+                        let allh = self.last(c);
+                        self.push(Step::new(cl, Concat).a(lowr, allh, 0));
+                        let low = self.last(c);
+                        self.push(Step::new(cl, Inter).a(u, low, 0));
+                        let v = self.last(c);
+                        self.push(Step::new(cl, Compl).a(v, 0, 0));
+                        let nv = self.last(c);
+                        for _ in 0..4 {
+                            let k = self.rng.below(n.max(1)) as u32;
+                            let which = if self.rng.chance(1, 2) { v } else { nv };
+                            self.push(Step::new(cl, StartClass).a(which, k, 0));
+                            let other = if which == v { nv } else { v };
+                            for d in [64u32, 256, 16] {
+                                if self.rng.chance(1, 2) {
+                                    self.push(Step::new(cl, StartClass).a(other, k + d, 0));
+                                    self.push(Step::new(cl, StartClass).a(which, k + d, 0));
+                                    self.push(Step::new(cl, StartClass).a(other, k.saturating_sub(d), 0));
+                                }
+                            }
+                            // the complementary class is the last valid id
+                            let kc = n as u32 + self.rng.below(3) as u32;
+                            self.push(Step::new(cl, StartClass).a(which, kc, 0));
+                        }
                         // alternatives intersected with the complement of the whole union: empty only
                         // semantically, and the emptiness search has to walk through late classes
                         for _ in 0..3 {
@@ -850,7 +1373,7 @@ pub fn gen_alphabet(rng: &mut Rng) -> Vec<u32> {
     // hundreds of derivative classes occur
     let wide = match rng.below(200) {
         0 | 1 => 260 + rng.below(71),
-        2..=13 => 17 + rng.below(29),
+        2..=13 => 17 + rng.below(70),
         _ => 0,
     };
     if wide > 0 {
@@ -968,7 +1491,10 @@ pub fn generate(seed: u64, prop: Prop) -> Trace {
     };
     // most runs are short; one in sixteen is long (ids in the hundreds, deep histories)
     let idiom_rate = if alpha.singles.len() > 200 { idiom_rate.max(60) } else { idiom_rate };
-    let max_steps = if rng.chance(1, 160) {
+    let max_steps = if alpha.k() > 60 {
+        // every step is expensive over a wide alphabet: keep such sessions short
+        20 + rng.below(100) as usize
+    } else if rng.chance(1, 160) {
         // a very long session: ids in the thousands
         600 + rng.below(900) as usize
     } else if rng.chance(1, 16) {
@@ -983,6 +1509,7 @@ pub fn generate(seed: u64, prop: Prop) -> Trace {
         rng: &mut rng,
         prop,
         nsingles: alpha.singles.len() as u32,
+        single_cells: alpha.singles.iter().map(|&c| c as u32).collect(),
         ncells: alpha.k() as u32,
         pool: vec![3; nclients],
         mgr: clients.clone(),
@@ -992,6 +1519,10 @@ pub fn generate(seed: u64, prop: Prop) -> Trace {
         big_loops,
         mid_loops,
         force_many: false,
+        idiom_kinds: std::env::var("SMTSIM_DEBUG_IDIOM_KINDS").ok().and_then(|x| x.parse().ok()).unwrap_or(27),
+        burst: 0,
+        burst_client: 0,
+        burst_done: false,
         max_steps,
     };
 
@@ -999,7 +1530,24 @@ pub fn generate(seed: u64, prop: Prop) -> Trace {
     let act: Vec<u32> = (0..nclients).map(|_| 1 + g.rng.below(4) as u32).collect();
     let mut current = g.rng.weighted(&act);
     let mut forced = g.nsingles >= 17;
+    let mut boundary_at: Option<usize> = if g.rng.chance(1, 32) {
+        let third = (g.max_steps / 3).max(1);
+        Some(third + g.rng.below(third as u64) as usize)
+    } else {
+        None
+    };
     while g.steps.len() < g.max_steps {
+        if let Some(at) = boundary_at {
+            if g.steps.len() >= at {
+                // swarm feature of ~3 % of the runs: in the middle of the session the id counter of
+                // this client's manager is brought to a power-of-two boundary (see Ballast)
+                boundary_at = None;
+                let kind = 60_000 + g.rng.below(8_000) as u32;
+                let base = g.rng.below(0x20000) as u32;
+                g.push(Step::new(current as u8, OpKind::Ballast).a(kind, base, 0));
+                continue;
+            }
+        }
         if forced {
             // a wide alphabet is there to be used: start with a many-piece character class
             forced = false;
@@ -1014,6 +1562,34 @@ pub fn generate(seed: u64, prop: Prop) -> Trace {
         let c = current;
         if g.rng.below(1000) < g.idiom_rate as u64 {
             g.idiom(c);
+            continue;
+        }
+        // after a ballast that brings the id counter to a power-of-two boundary: a burst of fresh
+        // constructions and of queries on old and new terms by the same client
+        if let Some(last) = g.steps.last() {
+            if last.op == OpKind::Ballast && last.a[0] >= 60_000 && g.burst == 0 && !g.burst_done {
+                g.burst = 14 + g.rng.below(10) as u32;
+                g.burst_client = last.client as usize;
+                g.burst_done = true;
+            }
+            if last.op != OpKind::Ballast {
+                g.burst_done = false;
+            }
+        }
+        if g.burst > 0 {
+            let c = g.burst_client;
+            g.burst -= 1;
+            let op = [
+                OpKind::Char, OpKind::Str, OpKind::Concat, OpKind::Union, OpKind::Inter, OpKind::Compl,
+                OpKind::Star, OpKind::StrInRe, OpKind::StrInRe, OpKind::IsEmpty, OpKind::GetString,
+                OpKind::StartChar, OpKind::Compile, OpKind::Closure, OpKind::IncludedIn, OpKind::CharDeriv,
+                OpKind::ClassInfo, OpKind::Reissue, OpKind::Replace, OpKind::TryCompile,
+            ][g.rng.below(20) as usize];
+            let global = g.mgr[c] == 0;
+            if op != OpKind::Replace || global {
+                g.gen_op(c, op);
+            }
+            current = c;
             continue;
         }
         // draw an operation; a few are only available on the thread-local manager
